@@ -9,7 +9,8 @@ Decomposition (DESIGN section 10/C02):
     telescoping of the erf differences."""
 import z3
 from pyvc.smt import Obligation
-from .common import call_cases, exhaustive, lemma
+from .common import call_cases, exhaustive, lemma, as_bool
+from pyvc.values import to_real
 
 PROP = 'C02'
 LEVEL = 'proof'
@@ -74,7 +75,8 @@ def register(reg):
     reg.contract(S, "add_lorentzian_line", PROP,
         sorts={"radiance": "real", "wavelength": "real", "lambda_1_2": "real", "spectrum": "ref:Spectrum!",
                "integrator": "ref:Integrator1D!"},
-        requires=SPECTRUM_OK + ["wavelength > 0"],
+        requires=SPECTRUM_OK,
+        raises={"ValueError": "lambda_1_2 > 0 and wavelength <= 0"},
         result='ref:Spectrum',
         ghost={"S(k)": "spectrum.samples_mv[k]",
                "edge(k)": "spectrum.min_wavelength + spectrum.delta_wavelength*k",
@@ -183,6 +185,100 @@ def register(reg):
                      ("ts() > 0 and bm() != 0 and pol() == 2", [comp(0, "wpi()"), comp(1, "wsg()"), comp(-1, "wsg()")]),
                  ]))])
 
+    # ------------------------------------------------------------------ Stark-broadened line (Gaussian + Lorentzian pairs)
+    def stark_pairs(P):
+        """every component is one (add_gaussian_line, add_lorentzian_line) pair with the same centre whose radiances add up
+        to the Zeeman component radiance; nothing is added when both widths vanish."""
+        evs = [e for e in P.st.log if e.label in (GA, LO)]
+        out = []
+        zero = as_bool(P.term("flz() == 0 and fgz() == 0"))
+        if not evs:
+            out.append(('stark.no_width', zero))
+            return out
+        out.append(('stark.width', z3.Not(zero)))
+        shape_ok = len(evs) % 2 == 0 and all(evs[2 * j].label == GA and evs[2 * j + 1].label == LO for j in range(len(evs) // 2))
+        out.append(('stark.pairs.shape', z3.BoolVal(shape_ok)))
+        if not shape_ok:
+            return out
+        cases = [
+            ("bm() == 0 and pol() == 2", [("radiance", "shift(self.wavelength)")]),
+            ("bm() == 0 and pol() != 2", [("0.5*radiance", "shift(self.wavelength)")]),
+            ("bm() != 0 and pol() == 0", [("wpi()", "shift(self.wavelength)")]),
+            ("bm() != 0 and pol() == 1", [("wsg()", "shift(HC_EV_NM / (HC_EV_NM / self.wavelength - BOHR_MAGNETON * bm()))"),
+                                          ("wsg()", "shift(HC_EV_NM / (HC_EV_NM / self.wavelength + BOHR_MAGNETON * bm()))")]),
+            ("bm() != 0 and pol() == 2", [("wpi()", "shift(self.wavelength)"),
+                                          ("wsg()", "shift(HC_EV_NM / (HC_EV_NM / self.wavelength - BOHR_MAGNETON * bm()))"),
+                                          ("wsg()", "shift(HC_EV_NM / (HC_EV_NM / self.wavelength + BOHR_MAGNETON * bm()))")]),
+        ]
+        for ci, (when, comps) in enumerate(cases):
+            w = as_bool(P.term(when))
+            if len(comps) * 2 != len(evs):
+                out.append(('stark.case%d.shape' % ci, z3.Not(w)))
+                continue
+            for j, (rad, centre) in enumerate(comps):
+                g, l = evs[2 * j], evs[2 * j + 1]
+                want = to_real(P.value(rad))
+                c = to_real(P.value(centre))
+                out.append(('stark.case%d.comp%d.radiance_sum' % (ci, j), z3.Implies(w, to_real(g.args[0]) + to_real(l.args[0]) == want)))
+                out.append(('stark.case%d.comp%d.centre' % (ci, j), z3.Implies(w, z3.And(to_real(g.args[1]) == c, to_real(l.args[1]) == c))))
+                out.append(('stark.case%d.comp%d.integrator' % (ci, j), z3.Implies(w, as_bool(P.eng.identical(l.args[4], P.value("self.integrator"))))))
+        return out
+
+    reg.contract(S, "StarkBroadenedLine.add_line", PROP, sorts=common['sorts'],
+        attrs={'_fwhm_poly_coeff_gauss': 'seq:real', '_fwhm_poly_coeff_lorentz': 'seq:real', '_weight_poly_coeff': 'seq:real'},
+        ghost=dict(common['ghost'], **{
+            "ne()": "self.plasma.get_electron_distribution().density(point.x, point.y, point.z)",
+            "te()": "self.plasma.get_electron_distribution().effective_temperature(point.x, point.y, point.z)",
+            "flz()": "ite(ne() > 0 and te() > 0, self._cij * pow(ne(), self._aij) / pow(te(), self._bij), 0)",
+            "fgz()": "ite(ts() > 0, _SIGMA2FWHM * sig(), 0)"}),
+        requires=common['requires'] + pol_ok + [
+            "not is_none(self.integrator)", "not is_none(self.plasma)",
+            "length(self._fwhm_poly_coeff_gauss) == 7", "length(self._fwhm_poly_coeff_lorentz) == 7",
+            "length(self._weight_poly_coeff) == 6",
+            "not is_none(self._fwhm_poly_coeff_gauss)", "not is_none(self._fwhm_poly_coeff_lorentz)",
+            "not is_none(self._weight_poly_coeff)"],
+        flags={'max_paths': 2000}, raises_any=['ValueError'],
+        ensures=[("identity", "same(result, spectrum)"), ("pairs", stark_pairs)])
+
+    # ------------------------------------------------------------------ motional Stark multiplet (beam emission)
+    mse_ghost = {
+        "pl()": "self.beam.get_plasma()",
+        "te()": "pl().get_electron_distribution().effective_temperature(plasma_point.x, plasma_point.y, plasma_point.z)",
+        "ne()": "pl().get_electron_distribution().density(plasma_point.x, plasma_point.y, plasma_point.z)",
+        "en()": "self.beam.get_energy()",
+        "bv()": "beam_direction.normalise().mul(evamu_to_ms(en()))",
+        "split()": "fabs(STARK_SPLITTING_FACTOR * bv().cross(pl().get_b_field().evaluate(plasma_point.x, plasma_point.y, plasma_point.z)).get_length())",
+        "c0()": "doppler_shift(self.wavelength, observation_direction, bv())",
+        "sg()": "thermal_broadening(self.wavelength, self.beam.get_temperature(), self.beam.get_element().atomic_weight)",
+        "r()": "self._sigma_to_pi.evaluate(ne(), en())",
+        "isig()": "radiance * r() / (1 + r())",
+        "ipi()": "0.5 * radiance / (1 + r())",
+        "s10()": "self._sigma1_to_sigma0.evaluate(ne())",
+        "p23()": "self._pi2_to_pi3.evaluate(ne())",
+        "p43()": "self._pi4_to_pi3.evaluate(ne())",
+        "pn()": "1 + p23() + p43()",
+    }
+    reg.contract(B, "BeamEmissionMultiplet.add_line", PROP,
+        sorts={"radiance": "real", "beam_point": "ref:Point3D!", "plasma_point": "ref:Point3D!", "beam_direction": "ref:Vector3D!",
+               "observation_direction": "ref:Vector3D!", "spectrum": "ref:Spectrum!"},
+        ghost=mse_ghost,
+        requires=SPECTRUM_OK + ["not is_none(self.beam)", "not is_none(self._sigma_to_pi)", "not is_none(self._sigma1_to_sigma0)",
+                                "not is_none(self._pi2_to_pi3)", "not is_none(self._pi4_to_pi3)", "self.wavelength > 0",
+                                "r() >= 0", "s10() >= 0", "p23() >= 0", "p43() >= 0"],
+        ensures=[("identity", "same(result, spectrum)"),
+                 ("calls", call_cases([GA], [
+                     ("te() <= 0 or ne() <= 0", []),
+                     ("te() > 0 and ne() > 0", [
+                         (GA, ["isig() / (1 + s10())", "c0()", "sg()", None]),
+                         (GA, ["isig() * 0.5 * s10() / (1 + s10())", "c0() + split()", "sg()", None]),
+                         (GA, ["isig() * 0.5 * s10() / (1 + s10())", "c0() - split()", "sg()", None]),
+                         (GA, ["ipi() * p23() / pn()", "c0() + 2 * split()", "sg()", None]),
+                         (GA, ["ipi() * p23() / pn()", "c0() - 2 * split()", "sg()", None]),
+                         (GA, ["ipi() / pn()", "c0() + 3 * split()", "sg()", None]),
+                         (GA, ["ipi() / pn()", "c0() - 3 * split()", "sg()", None]),
+                         (GA, ["ipi() * p43() / pn()", "c0() + 4 * split()", "sg()", None]),
+                         (GA, ["ipi() * p43() / pn()", "c0() - 4 * split()", "sg()", None])])]))])
+
 
 def _weights_lemmas(ctx):
     R = z3.Real
@@ -203,6 +299,11 @@ def _weights_lemmas(ctx):
                      'sum over no bins'))
     out.append(lemma('gaussian.telescoping.step', PROP, step_h, T(k + 1) == 0.5 * rad * (E(u(k + 1)) - E(u(lo))),
                      'sum_{j<k+1} delta*binmass_j = radiance/2 (erf u(k+1) - erf u(lo))'))
+    r, s10, p23, p43 = R('r'), R('s10'), R('p23'), R('p43')
+    isig, ipi, pn = rad * r / (1 + r), 0.5 * rad / (1 + r), 1 + p23 + p43
+    total = isig / (1 + s10) + 2 * (isig * 0.5 * s10 / (1 + s10)) + 2 * (ipi * p23 / pn) + 2 * (ipi / pn) + 2 * (ipi * p43 / pn)
+    out.append(lemma('mse.weights_sum_to_radiance', PROP, [r >= 0, s10 >= 0, p23 >= 0, p43 >= 0], total == rad,
+                     'the nine MSE components carry exactly the radiance for all non-negative ratios'))
     return out
 
 
